@@ -27,6 +27,9 @@ PROPS = {
     "C20": dict(engine="objsim", profiles=["restart"], quick_runs=6000, slice=60, thorough_s=600, fit="native"),
     "C10": dict(engine="objsim", profiles=["assign", "assign", "two_handles", "refs"], quick_runs=6000, slice=60, thorough_s=600, fit="native"),
     "C02": dict(engine="capisim", profiles=["c_readers", "c_readers", "c_readers_refs", "c_writers"], quick_runs=1600, slice=20, thorough_s=600, fit="weak", run_timeout=120),
+    "C18": dict(engine="hybridsim", profiles=["hybrid", "hybrid", "hybrid_moves", "hybrid_restart"], quick_runs=5000, slice=50, thorough_s=600, fit="native"),
+    "C19": dict(engine="hybridsim", profiles=["hybrid_dict", "hybrid_dict", "json"], quick_runs=5000, slice=50, thorough_s=300, fit="weak"),
+    "C14": dict(engine="depsim", profiles=["builds"], quick_runs=1200, slice=20, thorough_s=600, fit="weak", run_timeout=180),
     "C17": dict(engine="capisim", profiles=["c_calls"], quick_runs=1600, slice=20, thorough_s=600, fit="seam", run_timeout=120),
     "C07": dict(engine="capisim", profiles=["c_writers", "c_writers", "c_writers", "c_readers_refs"], quick_runs=1600, slice=20, thorough_s=900, fit="weak", run_timeout=120),
 }
@@ -48,6 +51,10 @@ def get_engine(name):
             from .capisim import CApiSim
 
             _ENGINES[name] = CApiSim()
+        elif name == "depsim":
+            from .depsim import DepSim
+
+            _ENGINES[name] = DepSim()
         elif name == "hybridsim":
             from .hybridsim import HybridSim
 
